@@ -22,7 +22,7 @@ CASE_TIMEOUT = 60
 WALL = {"quick": 900, "thorough": 7200}
 REQUIRED = {"graphs_compared": 2000, "fasta": 300, "ig": 300, "txt": 300, "seq_list": 200, "gen_seq_specs": 300,
             "circular": 60, "single_residue": 30, "json_round_trips": 300, "connect_records": 200, "termini_renamed": 100,
-            "labels": 100, "letters_seen": 30, "json_labelled_edges": 300, "fasta_with_further_records": 50, "file_macro_uses": 100, "connect_records_later_block_first": 100, "no_trailing_newline": 200, "multi_edge_connect_records": 50}
+            "labels": 100, "letters_seen": 30, "json_labelled_edges": 300, "fasta_with_further_records": 50, "file_macro_uses": 100, "connect_records_later_block_first": 100, "fasta_with_empty_lines": 50, "no_trailing_newline": 200, "multi_edge_connect_records": 50}
 DNA = {"A": "DA", "C": "DC", "G": "DG", "T": "DT"}
 RNA = {"A": "A", "C": "C", "G": "G", "T": "U", "U": "U"}       # uracil is written U in RNA files (T is tolerated)
 AA = {"G": "GLY", "A": "ALA", "V": "VAL", "C": "CYS", "P": "PRO", "L": "LEU", "I": "ILE", "M": "MET", "W": "TRP",
@@ -124,7 +124,11 @@ def run_case(cid, rng, workdir):
         p = Path(workdir) / "s.txt"
     elif fmt == "fasta":
         head = ">%s %s" % (kind, rng.choice(["sample", "chain X", "test sequence 42"]))
-        text = head + "\n" + "\n".join(brk(rng, seq)) + "\n"
+        parts = brk(rng, seq)
+        if len(parts) > 1 and rng.random() < 0.3:
+            parts.insert(rng.randrange(1, len(parts)), "")          # an empty line between two lines of the sequence
+            bump(res, "fasta_with_empty_lines")
+        text = head + "\n" + "\n".join(parts) + "\n"
         if rng.random() < 0.25:
             # further records: only the first sequence of the file is the input
             for _ in range(rng.randint(1, 2)):
